@@ -488,6 +488,65 @@ func syncProto(repo string) (string, string, error) {
 		plainFromReq = false
 	}
 
+	// structural fact 12: connectMethod.key() drops the target address only for a plain-http target behind an
+	// http/https proxy: the one assignment `targetAddr = ""` sits in an if whose condition is
+	// `(...) && cm.targetScheme == "http"` - an https target (CONNECT tunnel + TLS session with ONE origin) stays
+	// in the key, so a tunnel is reused for its own authority only
+	fKey := funcDecl(tr, "connectMethod", "key")
+	if fKey == nil {
+		return "", "", fmt.Errorf("transport.go: connectMethod.key not found")
+	}
+	keyOK, nClear := true, 0
+	var walk func(n ast.Node, guarded bool)
+	walk = func(n ast.Node, guarded bool) {
+		ast.Inspect(n, func(x ast.Node) bool {
+			switch v := x.(type) {
+			case *ast.IfStmt:
+				g := guarded
+				if be, ok := v.Cond.(*ast.BinaryExpr); ok && be.Op == token.LAND {
+					if r, ok := be.Y.(*ast.BinaryExpr); ok && r.Op == token.EQL && isSel(r.X, "cm", "targetScheme") {
+						if bl, ok := r.Y.(*ast.BasicLit); ok && bl.Value == `"http"` {
+							g = true
+						}
+					}
+				}
+				if v.Init != nil {
+					walk(v.Init, guarded)
+				}
+				walk(v.Body, g)
+				if v.Else != nil {
+					walk(v.Else, guarded)
+				}
+				return false
+			case *ast.AssignStmt:
+				for i, l := range v.Lhs {
+					if id, ok := l.(*ast.Ident); ok && id.Name == "targetAddr" && i < len(v.Rhs) {
+						if bl, ok := v.Rhs[i].(*ast.BasicLit); ok && bl.Value == `""` {
+							nClear++
+							if !guarded {
+								keyOK = false
+							}
+						}
+					}
+				}
+			}
+			return true
+		})
+	}
+	walk(fKey.Body, false)
+	// the key must still carry the address
+	hasAddr := false
+	ast.Inspect(fKey, func(x ast.Node) bool {
+		if kv, ok := x.(*ast.KeyValueExpr); ok {
+			if id, ok := kv.Key.(*ast.Ident); ok && id.Name == "addr" {
+				if v, ok := kv.Value.(*ast.Ident); ok && v.Name == "targetAddr" {
+					hasAddr = true
+				}
+			}
+		}
+		return true
+	})
+
 	var sb strings.Builder
 	sb.WriteString("(* GENERATED by harness/c12 gosync from transport.go, client.go, internal/http2/http2.go,\n   internal/http3/server.go, internal/http3/roundtrip.go - do not edit *)\n")
 	sb.WriteString("From ReqV Require Import Lib.Bytes.\nImport ListNotations.\n\n")
@@ -511,6 +570,7 @@ func syncProto(repo string) (string, string, error) {
 	fmt.Fprintf(&sb, "(* Transport.EnableH2C assigns DialTLSContext *)\nDefinition h2c_installs_plain_dialtls : bool := %s.\n", hk.CoqBool(h2cInstalls))
 	fmt.Fprintf(&sb, "(* http2 dialClientConn dials http:// requests (h2c) without the TLS hooks *)\nDefinition h2_plain_dial_for_http : bool := %s.\n", hk.CoqBool(plainFirst))
 	fmt.Fprintf(&sb, "(* every dialClientConn / getStartDialLocked call derives `plain` from the request's scheme (%d call sites) *)\nDefinition h2_plain_from_request_scheme : bool := %s.\n", nCalls, hk.CoqBool(plainFromReq && plainParam))
+	fmt.Fprintf(&sb, "(* connectMethod.key(): the target address is dropped only for plain-http targets behind a proxy (%d guarded clearing(s)) *)\nDefinition pool_key_keeps_https_target : bool := %s.\n", nClear, hk.CoqBool(keyOK && hasAddr))
 	return "ProtoTables.v", sb.String(), nil
 }
 
